@@ -2,6 +2,7 @@
 from __future__ import annotations
 
 import ast
+import copy
 import builtins
 import symtable
 from typing import Dict, List, Optional, Set
@@ -133,6 +134,29 @@ def _substitution_sequences(ctx, ws, fl):
     """Ordered (placeholder, value) substitutions applied to the HTML template, per output mode.
     Idioms: a chain t.replace(a, x).replace(b, y)…;  or  v = t; for ph, content in (<literal pairs>): v = v.replace(ph, content)."""
     out = []
+    # … or the same thing as consecutive statements  v = v.replace(a, x); v = v.replace(b, y); …  (what an unrolled table loop looks like)
+    def blocks(node):
+        for fld in ('body', 'orelse', 'finalbody'):
+            b = getattr(node, fld, None)
+            if isinstance(b, list) and b and isinstance(b[0], ast.stmt):
+                yield b
+                for x in b:
+                    if not isinstance(x, (ast.FunctionDef, ast.AsyncFunctionDef, ast.ClassDef)):
+                        yield from blocks(x)
+        for h in getattr(node, 'handlers', []) or []:
+            yield from blocks(h)
+    for b in blocks(ws.node):
+        run = []
+        for x in list(b) + [None]:
+            c = x.value if isinstance(x, ast.Assign) and len(x.targets) == 1 and isinstance(x.targets[0], ast.Name) and isinstance(x.value, ast.Call) else None
+            one = c is not None and isinstance(c.func, ast.Attribute) and c.func.attr == 'replace' and len(c.args) == 2 and isinstance(c.func.value, ast.Name) \
+                and c.func.value.id == x.targets[0].id and isinstance(c.args[0], ast.Constant) and 'PLACEHOLDER' in str(c.args[0].value)
+            if one and (not run or run[-1].targets[0].id == x.targets[0].id):
+                run.append(x)
+                continue
+            if len(run) >= 2:
+                out.append((run[0], [(r.value.args[0].value, r.value.args[1], r) for r in run]))
+            run = [x] if one else []
     for s_ in fl.cfg.stmts():
         if isinstance(s_, ast.Assign) and isinstance(s_.value, ast.Call):
             chain = _replace_chain(s_.value)
@@ -422,6 +446,37 @@ def r7_category(ctx: Ctx, ws: FuncInfo) -> None:
     paths = [p for p in body.paths(ENTRY, (CONT, BREAK, EXIT)) if p[-1] != RAISE]
     ctx.count('paths', len(paths))
 
+    # a local bound once in the loop body to a place (`e = d.setdefault(k, {…})`, `e = d[k]`) or to a read (`n = m.get('count', 0)`) stands for it:
+    # the statements are compared with such locals written out
+    once_bound = {}
+    counts_ = {}
+    for n_ in ast.walk(grp[0]):
+        if isinstance(n_, ast.Name) and isinstance(n_.ctx, ast.Store):
+            counts_[n_.id] = counts_.get(n_.id, 0) + 1
+    for s_ in grp[0].body:
+        if isinstance(s_, ast.Assign) and len(s_.targets) == 1 and isinstance(s_.targets[0], ast.Name) and counts_.get(s_.targets[0].id) == 1:
+            v_ = s_.value
+            if isinstance(v_, ast.Call) and isinstance(v_.func, ast.Attribute) and v_.func.attr == 'setdefault' and len(v_.args) == 2:
+                once_bound[s_.targets[0].id] = ast.Subscript(value=v_.func.value, slice=v_.args[0], ctx=ast.Load())
+            elif isinstance(v_, ast.Subscript) or (isinstance(v_, ast.Call) and isinstance(v_.func, ast.Attribute) and v_.func.attr == 'get' and isinstance(v_.func.value, ast.Name)):
+                once_bound[s_.targets[0].id] = v_
+
+    class _Expand(ast.NodeTransformer):
+        def visit_Name(self, node):
+            if node.id in once_bound and isinstance(node.ctx, ast.Load):
+                return self.visit(copy.deepcopy(once_bound[node.id]))
+            return node
+
+    def xsrc(e) -> str:
+        if not once_bound:
+            return src(e)
+        e2 = copy.deepcopy(e)
+        for n_ in ast.walk(e2):
+            if hasattr(n_, 'ctx'):
+                n_.ctx = ast.Load()
+        return ast.unparse(_Expand().visit(e2))
+    src_ = src
+
     def once(pred, label, text_ok, text_bad, target_text=None):
         ids = {body.nid(s) for s in body.stmts() if pred(s)}
         if not ids:
@@ -437,11 +492,11 @@ def r7_category(ctx: Ctx, ws: FuncInfo) -> None:
         counts = {sum(1 for n in p if n in ids) for p in paths}
         ctx.check(counts == {1}, 'C12.R7', bc, label, text_ok, f'{text_bad}: executed {sorted(counts)} times depending on the path', grp[0])
 
-    once(lambda s: isinstance(s, ast.Assign) and src(s.targets[0]) == "categories[cat]['subcategories'][subcat]['merchants'][merchant_id]" and src(s.value) == 'merchant',
+    once(lambda s: isinstance(s, ast.Assign) and xsrc(s.targets[0]) == "categories[cat]['subcategories'][subcat]['merchants'][merchant_id]" and src(s.value) == 'merchant',
          'cell', 'each merchant is stored in exactly one category/subcategory cell', 'merchant cell store')
     for level, prefix in (('subcategory', "categories[cat]['subcategories'][subcat]"), ('category', 'categories[cat]')):
         for fld, srcf in (('total', "merchant.get('ytd', 0)"), ('count', "merchant.get('count', 0)"), ('monthly', "merchant.get('monthly', 0)")):
-            once(lambda s, p=prefix, f=fld, v=srcf: isinstance(s, ast.AugAssign) and isinstance(s.op, ast.Add) and src(s.target) == f"{p}['{f}']" and src(s.value) == v,
+            once(lambda s, p=prefix, f=fld, v=srcf: isinstance(s, ast.AugAssign) and isinstance(s.op, ast.Add) and xsrc(s.target) == f"{p}['{f}']" and xsrc(s.value) == v,
                  f'{level}:{fld}', f'{level} {fld} += merchant {fld}, once', f'{level} {fld} accumulation', target_text=f"{prefix}['{fld}']")
     rets = [r for r in ast.walk(bc.node) if isinstance(r, ast.Return)]
     ctx.check(len(rets) == 1 and src(rets[0].value) == 'categories', 'C12.R7', bc, 'return', 'returns the grouped categories', 'category view is not what is returned')
@@ -503,10 +558,20 @@ def _num_months_nonzero(proj) -> bool:
     an = proj.func('analyzer.analyze_transactions')
     defs = [n for n in ast.walk(an.node) if isinstance(n, ast.Assign) and src(n.targets[0]) == 'num_months']
     ok = bool(defs)
+    fl = get_flow(proj, an)
     for dn in defs:
         v = dn.value
-        ok = ok and isinstance(v, ast.IfExp) and src(v.body).startswith('len(') and src(v.test) in src(v.body) and isinstance(v.orelse, ast.Constant) \
-            and isinstance(v.orelse.value, int) and v.orelse.value > 0
+        if isinstance(v, ast.IfExp):
+            # len(x) if x else <positive constant>
+            ok = ok and src(v.body).startswith('len(') and src(v.test) in src(v.body) and isinstance(v.orelse, ast.Constant) \
+                and isinstance(v.orelse.value, int) and v.orelse.value > 0
+        elif isinstance(v, ast.Constant):
+            ok = ok and isinstance(v.value, int) and v.value > 0
+        elif isinstance(v, ast.Call) and call_name(v) == 'len' and len(v.args) == 1:
+            # the same thing as a statement: `if x: n = len(x)`  (len of something known to be non-empty)
+            ok = ok and (src(v.args[0]), True) in fl.cfg.guard_literals(dn)
+        else:
+            ok = False
     return ok
 
 
